@@ -150,6 +150,10 @@ def run_sx(contract, seed=0):
             except Exception as e:
                 r = None
                 det["native_error"] = repr(e)
+                if name.endswith(":no-exception"):
+                    # the real code raises on the concrete input as well: that input is the failing input
+                    det["replayed"] = True
+                    det["native_exception"] = traceback.format_exc(limit=6)
             if r is not None:
                 short = name[len(c.label) + 1:]
                 hit = r.get(short)
